@@ -467,11 +467,25 @@ def run_impl(case):
             obs['raised'] = None
         except Exception as e:  # noqa
             obs['raised'] = lib.exc_name(e)
-            try:       # a candidate witness that the code does fit compressed (validated by the monitor, not trusted)
-                from pico8.game import compress as _compress
-                obs['witness'] = lib.hx(bytes(_compress.compress_code(written))) if len(written) < 30000 else None
-            except Exception:  # noqa
-                obs['witness'] = None
+            # candidate witnesses that the code does fit compressed (validated by the monitor, not trusted): the
+            # library's own compressed stream and the stream of the harness's compressor (refcompress.py, written from
+            # the format description - a library compressor that has got worse cannot hide behind its own output)
+            cands = []
+            if len(written) < 66000:
+                try:
+                    from pico8.game import compress as _compress
+                    if len(written) < 30000:
+                        cands.append(bytes(_compress.compress_code(written)))
+                except Exception:  # noqa
+                    pass
+                try:
+                    import refcompress
+                    # same policy as PICO-8's greedy compressor (reach 3120, compatibility line for _update60 text):
+                    # on an unchanged library the two streams have the same length
+                    cands.append(refcompress.compress(refcompress.with_future_code(written)))
+                except Exception:  # noqa
+                    pass
+            obs['witness'] = lib.hx(min(cands, key=len)) if cands else None
             if case['dest'] != 'none':
                 with open(fn, 'rb') as fh:
                     obs['dest_intact'] = fh.read() == pngref.write(160, 205, _label_rows(case['dest'], case['seed']))
